@@ -83,6 +83,36 @@ Proof.
   - apply rstrip_nl_id.
 Qed.
 Print Assumptions line_newline.
+(* line_newline leaves the body of write_line open; these pin it.  On EVERY output that is not a decorated section - any
+   indentation, decorated or not, any formatter state - write_line succeeds exactly when write does and leaves exactly what
+   write leaves followed by ONE line feed: the line feeds inside the body are those the rendering of the text itself has
+   (write_line "a\n" ends in two: the text's own and the one write_line adds). *)
+Theorem write_line_is_write_plus_one_newline : forall o s, o_sec o && o_on o = false ->
+  do_write o WWriteLine s = (do o1 <- do_write o WWrite s; Ok (buf_push o1 (o_fmt o1) [NL])).
+Proof. exact write_line_is_write_nl. Qed.
+Print Assumptions write_line_is_write_plus_one_newline.
+(* ... the body in full: the text, indented by exactly the indentation in force when that is positive, as the output's
+   formatter renders it (format on a decorated output, remove_format otherwise) *)
+Theorem write_line_emits_rendered_text_and_newline : forall o s o', o_sec o && o_on o = false ->
+  do_write o WWriteLine s = Ok o' ->
+  exists f' out, line_render o (o_fmt o) s = Ok (f', out) /\ o' = buf_push o f' (out ++ [NL]).
+Proof. exact write_line_body. Qed.
+Print Assumptions write_line_emits_rendered_text_and_newline.
+(* a decorated section output ends the line whichever of the two is called, once; the body is the formatted indented text
+   (after add_content measured its lines on the same formatter) *)
+Theorem section_write_line : forall o s, o_sec o && o_on o = true ->
+  do_write o WWrite s = do_write o WWriteLine s /\
+  (forall o', do_write o WWriteLine s = Ok o' ->
+     exists f0 f' out, add_content_effect o s = Ok f0 /\ format f0 (line_shown o s) None = Ok (f', out) /\
+                       o' = buf_push o f' (out ++ [NL])).
+Proof. intros o s H. split; [exact (section_write_is_write_line o s H)|]. intros o'. exact (section_write_line_body o s o' H). Qed.
+Print Assumptions section_write_line.
+(* a section taken inside a program starts with the indentation in force and hands the outputs back as they were:
+   indent_scopes / scopes_are_lexical above hold for programs WITH SInSection steps *)
+Example insection_inherits_indentation :
+  forall st, indents (in_sections st) = indents st /\ indents (out_sections st (in_sections st)) = indents st.
+Proof. intros st. split; reflexivity. Qed.
+
 (* on an undecorated, unindented output the body of write_line is the tag-stripped text itself *)
 Theorem write_line_plain_text : forall o s o', o_on o = false -> o_sec o = false -> (o_indent o <= 0)%Z -> f_kind (o_fmt o) = FPlain ->
   do_write o WWriteLine s = Ok o' ->
